@@ -1241,6 +1241,20 @@ def _discr_twins(x, v, depth=0):
     return out
 
 
+_ORD_PRED = {"is_eq": "Eq", "is_ne": "Ne", "is_lt": "Lt", "is_le": "Le", "is_gt": "Gt", "is_ge": "Ge"}
+
+
+def ordering_pred_as_cmp(t):
+    """`a.cmp(&b).is_eq()` (is_ne / is_lt / is_le / is_gt / is_ge) is the comparison `a == b` (..): returns ('bin', op, a, b) or t.
+    Only for Ord::cmp — a partial_cmp yields an Option and is a different term."""
+    t0 = deep_strip(t)
+    if t0[0] == 'call' and len(t0[2]) == 1 and canon(t0[1]).split("::")[-1] in _ORD_PRED and "Ordering" in canon(t0[1]):
+        c = deep_strip(t0[2][0])
+        if c[0] == 'call' and len(c[2]) == 2 and canon(c[1]).split("::")[-1] == "cmp" and re.search(r"\bOrd\b", str(c[1])):
+            return ('bin', _ORD_PRED[canon(t0[1]).split("::")[-1]], _unref(c[2][0]), _unref(c[2][1]))
+    return t
+
+
 def rels_of_bool(term, truth):
     """the relations stated by `term == truth` for a boolean term (same normalisation as for branch conditions)"""
     cc, tr = deep_strip(term), truth
